@@ -33,14 +33,31 @@ func c18Planned(e *Env, viol func(kind, sig, what, chk string, rep any), mu *syn
 			t := cur.Tables[0]
 			t.Cols = append(t.Cols, sqCol{Name: "gvx", Type: "integer", Gen: "id + 1"}, sqCol{Name: "zdrop", Type: "integer"})
 		}
+		dropK := 0
+		if ci%5 == 3 && len(cur.Tables) > 0 {
+			// exactly k ordinary columns that exist before are dropped by ONE statement (a rebuild), k = 1..4,
+			// and nothing else happens to the schema
+			dropK = 1 + (ci/5)%4
+			t := cur.Tables[0]
+			for k := 1; k <= dropK; k++ {
+				t.Cols = append(t.Cols, sqCol{Name: fmt.Sprintf("zd%d", k), Type: hx.Pick(r, []string{"integer", "text"})})
+			}
+		}
 		des := cur.clone()
 		var edits []*sqEdit
+		if dropK > 0 {
+			t := des.Tables[0]
+			t.Cols = t.Cols[:len(t.Cols)-dropK]
+			for k := 1; k <= dropK; k++ {
+				edits = append(edits, &sqEdit{"drop-column", t.Name, fmt.Sprintf("zd%d", k)})
+			}
+		}
 		if ci%5 == 2 && len(des.Tables) > 0 {
 			t := des.Tables[0]
 			t.Cols = t.Cols[:len(t.Cols)-2]
 			edits = append(edits, &sqEdit{"drop-column", t.Name, "gvx"}, &sqEdit{"drop-column", t.Name, "zdrop"})
 		}
-		for k := 0; k < 1+r.Intn(3); k++ {
+		for k := 0; k < 1+r.Intn(3) && dropK == 0; k++ {
 			if ed := g.edit(des); ed != nil {
 				edits = append(edits, ed)
 			}
